@@ -6,6 +6,7 @@ import (
 	"go/types"
 	"math/big"
 	"os"
+	"sort"
 	"strings"
 
 	"gmcheck/core"
@@ -197,6 +198,11 @@ func (c *Ctx) frameMaxObs() []core.Ob {
 		if s.AV.T != nil && s.AV.T.Hi != nil && s.AV.T.Hi.Cmp(max) <= 0 {
 			ob.Status = core.OK
 			ob.Got = s.AV.String()
+		} else if got, ok := c.sizeBoundedAtCallers(s, in, max); ok {
+			// a shared helper (resize(s, n)) that is handed the size: what matters is what the frame
+			// reader hands it, not what other decoders of the package do
+			ob.Status = core.OK
+			ob.Got = got
 		} else {
 			ob.Status = core.Violated
 			ob.Got = "size " + s.AV.String() + "; source: " + s.Src
@@ -222,6 +228,7 @@ func init() {
 			obs = append(obs, c.TagDispatch("nbt", "nbt/dynbt")...)
 			obs = append(obs, c.ListProgress()...)
 			obs = append(obs, c.UnknownListTagRefused("nbt", "nbt/dynbt")...)
+			obs = append(obs, c.InterfaceAndNilTargets("nbt")...)
 			obs = append(obs, c.SignCheckBeforeSuccess(in)...)
 			obs = append(obs, filterObs(c.RawRead(), func(o core.Ob) bool { return strings.HasPrefix(o.Key, "nbt.") || strings.HasPrefix(o.Key, "nbt/") })...)
 			obs = append(obs, c.StringIndexGuards(in)...)
@@ -233,7 +240,21 @@ func init() {
 		Explanation: "R-TLG over every decoder root of the module; R-PANIC reachability triage; nil-guard of func-typed fields; guarded NewBitStorage calls; R-GUARD string indexes; T-PALCFG width bounds. Decided: Every peer-derived length/count/index reaching a crash sink is proven in range on all paths in the decoders of the enumerated packages; explicit panics reachable from decoder roots are triaged; palette widths from the wire never exceed a machine word. Implicit panics outside these classes are not decided.",
 		Run: func(c *Ctx) []core.Ob {
 			armed := pkgPred("net/packet", "level", "chat", "registry", "server/command", "net", "nbt", "nbt/dynbt")
-			obs := c.TLGObs(yes, armed, false)
+			// ... and the bot's packet handlers themselves (functions of bot/... that are handed the received
+			// packet): what they scan out of it is peer-controlled where they use it
+			inLib := armed
+			handler := func(fn *ssa.Function) bool {
+				if !inPkgs(fn, "bot/...") {
+					return false
+				}
+				for _, p := range fn.Params {
+					if isNamed(p.Type(), core.ModPath+"/net/packet", "Packet") {
+						return true
+					}
+				}
+				return false
+			}
+			obs := c.TLGObs(yes, func(fn *ssa.Function) bool { return inLib(fn) || handler(fn) }, false)
 			obs = append(obs, c.Panics(c.Verif, c.DecoderRoots(), yes, armed)...)
 			obs = append(obs, c.FuncFieldCalls(yes, armed)...)
 			obs = append(obs, c.StringIndexGuards(armed)...)
@@ -267,4 +288,63 @@ func init() {
 			return obs
 		},
 	}
+}
+
+// sizeBoundedAtCallers: the allocation size of sink s is a parameter of its function; at every call
+// site of that function in scope the argument is peer-derived with an upper bound <= max (or not
+// peer-derived at all).
+func (c *Ctx) sizeBoundedAtCallers(s *Sink, in func(*ssa.Function) bool, max *big.Int) (string, bool) {
+	ms, ok := s.In.(*ssa.MakeSlice)
+	if !ok {
+		return "", false
+	}
+	prm, ok := stripConv(ms.Len).(*ssa.Parameter)
+	if !ok {
+		return "", false
+	}
+	pi := -1
+	for i, q := range s.Fn.Params {
+		if q == prm {
+			pi = i
+		}
+	}
+	if pi < 0 {
+		return "", false
+	}
+	t := c.TLG()
+	sites, good := 0, true
+	var got []string
+	for _, f := range c.Funcs() {
+		if !in(f) || f == s.Fn || len(f.Blocks) == 0 {
+			continue
+		}
+		has := false
+		for _, b := range f.Blocks {
+			for _, x := range b.Instrs {
+				if ci, ok := x.(ssa.CallInstruction); ok && ci.Common().StaticCallee() != nil && core.Origin(ci.Common().StaticCallee()) == core.Origin(s.Fn) {
+					has = true
+				}
+			}
+		}
+		if !has {
+			continue
+		}
+		t.Probe(f, func(x ssa.Instruction, eval func(ssa.Value) AV, _ func(string) (AV, bool)) {
+			ci, ok := x.(ssa.CallInstruction)
+			if !ok || ci.Common().StaticCallee() == nil || core.Origin(ci.Common().StaticCallee()) != core.Origin(s.Fn) || pi >= len(ci.Common().Args) {
+				return
+			}
+			sites++
+			av := eval(ci.Common().Args[pi])
+			if av.T != nil && (av.T.Hi == nil || av.T.Hi.Cmp(max) > 0) {
+				good = false
+			}
+			got = append(got, core.FnName(f)+": "+av.String())
+		})
+	}
+	if sites == 0 || !good {
+		return "", false
+	}
+	sort.Strings(got)
+	return "the size is a parameter of " + core.FnName(s.Fn) + "; bounded at its call sites in the frame reader: " + strings.Join(got, "; "), true
 }
